@@ -246,6 +246,23 @@ Definition prune (b : bn) (Q : list var) (evidence : list (var * nat)) : bn * li
    accepted iff the order is the model's; an accepted virtual evidence is applied positionally. *)
 Definition vev_accepted (model_states given : list nat) : bool :=
   Nat.eqb (length model_states) (length given) && forallb (fun p => Nat.eqb (fst p) (snd p)) (combine model_states given).
+(* The argument checks of query, in the order the code makes them (0 = accepted; every other code is a ValueError):
+   3 = a variable is both queried and observed (Step 1 of query);
+   4 = a virtual evidence on a variable that is not in the model, 5 = ... whose cardinality is not the model's
+       (_check_virtual_evidence, in list order: the FIRST offending entry decides, later entries are not reached);
+   6 = ... whose state list is not the model's own (check_model on the augmented copy).
+   A rejected call leaves the engine as it was (491df91). *)
+Fixpoint check_vev (nodes : list var) (card : var -> nat) (vev : list (var * nat * list nat)) : nat :=
+  match vev with
+  | [] => 0
+  | (x, c, _) :: r => if negb (memv x nodes) then 4 else if negb (Nat.eqb c (card x)) then 5 else check_vev nodes card r
+  end.
+Definition query_rejects (nodes : list var) (card : var -> nat) (Q E : list var) (vev : list (var * nat * list nat)) : nat :=
+  if existsb (fun q => memv q E) Q then 3
+  else match check_vev nodes card vev with
+       | 0 => if forallb (fun t => vev_accepted (seq 0 (card (fst (fst t)))) (snd t)) vev then 0 else 6
+       | c => c
+       end.
 Definition virt_cpd (nv x : var) (vals : list Qc) : fac :=
   Build_factor R [nv; x] (vals ++ map (fun q => (1 - q)%Qc) vals).
 Definition add_virtual (b : bn) (ve : var * var * list Qc) : bn :=
